@@ -31,7 +31,7 @@ def main(argv=None):
         props.PROPS[a.prop](repo, rep)
         if tier == "thorough" and not a.no_selftest:
             from . import selftest
-            st = selftest.run_for_property(a.prop, a.repo, seed)
+            st = selftest.run_for_property(a.prop, a.repo, seed, base={selftest._key(o) for o in rep.failures()})
             rep.selftest = st
             if st.get("failed"):
                 rep.write_evidence(0, 0)
@@ -45,9 +45,11 @@ def main(argv=None):
         print("%s: %d obligations over %d functions, %d held, %d failed; tier=%s%s" % (
             a.prop, nob, len(rep.functions), sum(1 for o in rep.obs if o["ok"]),
             len(rep.failures()), tier,
-            (", self-test %d/%d variants ok, %d/%d seeded changes still caught (%d stale)" % (
+            (", self-test %d/%d variants ok, %d/%d seeded changes still caught (%d stale), %d/%d independent refactorings silent (%d stale)" % (
                 rep.selftest["ok"], rep.selftest["total"], rep.selftest.get("seeded_caught", 0),
-                rep.selftest.get("seeded_total", 0), rep.selftest.get("seeded_stale", 0)))
+                rep.selftest.get("seeded_total", 0), rep.selftest.get("seeded_stale", 0),
+                rep.selftest.get("refactorings_silent", 0), rep.selftest.get("refactorings_total", 0),
+                rep.selftest.get("refactorings_stale", 0)))
             if rep.selftest else ""))
         if a.replay:
             import json
